@@ -170,9 +170,17 @@ def scan_forbidden():
     return bad
 
 
-def coq_build(target_vo, timeout=3000):
+class _NoLock:
+    def __enter__(self):
+        return self
+
+    def __exit__(self, *a):
+        return False
+
+
+def coq_build(target_vo, timeout=3000, take_lock=True):
     """full .vo build of one target (relative to coq/), e.g. theories/Props/C09.vo"""
-    with Lock("coq"):
+    with (Lock("coq") if take_lock else _NoLock()):
         mk = os.path.join(COQ, "Makefile")
         cp = os.path.join(COQ, "_CoqProject")
         vs = []
@@ -479,24 +487,27 @@ def run_check(P, argv):
 
     problems = []        # things that make the proof/correspondence "no longer shown"
     # 1+2: Coq --------------------------------------------------------------
-    ok, out = gen_consts()
-    if not ok:
-        problems.append(("translator", "gen_consts failed", out[-2000:]))
     props_rel = "theories/Props/%s.v" % P.ID
     bad = scan_forbidden()
     if bad:
         problems.append(("forbidden", "forbidden construct in the development", "\n".join(bad)))
-    ok, out = coq_build(props_rel + "o")
     thms = theorem_names(props_rel)
     assum = {}
-    if not ok:
-        m = re.search(r'File "([^"]+)", line (\d+).*?\n(Error:.*?)(?:\n\n|\Z)', out, re.S)
-        what = "%s:%s %s" % (m.group(1), m.group(2), m.group(3)[:400]) if m else out[-1500:]
-        problems.append(("proof", "Coq build of %s failed" % props_rel, what))
-    else:
-        ok2, assum, raw = coq_props(ctx, props_rel)
-        if not ok2:
-            problems.append(("assumptions", "Print Assumptions not closed / not parsed", json.dumps(assum) + raw[-1500:]))
+    # one critical section: the generated constants (they depend on VERIF_REPO) and the
+    # build that consumes them must not interleave with another run's
+    with Lock("coq"):
+        ok, out = gen_consts()
+        if not ok:
+            problems.append(("translator", "gen_consts failed", out[-2000:]))
+        ok, out = coq_build(props_rel + "o", take_lock=False)
+        if not ok:
+            m = re.search(r'File "([^"]+)", line (\d+).*?\n(Error:.*?)(?:\n\n|\Z)', out, re.S)
+            what = "%s:%s %s" % (m.group(1), m.group(2), m.group(3)[:400]) if m else out[-1500:]
+            problems.append(("proof", "Coq build of %s failed" % props_rel, what))
+        else:
+            ok2, assum, raw = coq_props(ctx, props_rel)
+            if not ok2:
+                problems.append(("assumptions", "Print Assumptions not closed / not parsed", json.dumps(assum) + raw[-1500:]))
     discharged = len([t for t in thms if assum.get(t) == "closed"])
     ctx.say("[%s] coq: %d theorems, %d closed under the global context%s" % (
         P.ID, len(thms), discharged, "" if not problems else "  PROBLEMS: " + "; ".join(p[1] for p in problems)))
